@@ -388,7 +388,7 @@ impl Property for C06 {
         vec![("short", 2), ("long", 1)]
     }
     fn budget(&self) -> (u64, u64) {
-        (30_000, 1_000_000)
+        (150_000, 3_000_000)
     }
     fn rule(&self) -> &'static str {
         "histories of 2-10 (short) or 8-40 (long) steps of {set,set-safe,remove,increment,snapshot false,snapshot true,restart} over 2-3 keys and 1-2 databases (strategies none/newer/arbiter), values incl. empty, multi-byte UTF-8 and >250 bytes, half of the runs biased towards remove/snapshot alternations; every history ends with snapshot+restart. restart = process kill after a completed snapshot + real start_db on the surviving simulated disk. Non-trivial: at least one restart was compared against a completed snapshot. distinct = distinct programs."
